@@ -53,8 +53,8 @@ func universe(n int) []*triple.Triple {
 		model.T(a, model.PT("t", zt.In(time.FixedZone("", 3600))), il(1)),
 		model.T(b, model.PT("t", zt.In(time.UTC)), il(1)),
 		model.T(c, p, tx("1")),
-		model.T(a, F, fl(2.0)),
 		model.T(c, W, il(7)),
+		model.T(a, F, fl(2.0)),
 		model.T(c, p, model.ON(b)),
 	}
 	return u[:n]
@@ -132,6 +132,26 @@ func queries(cs []bqlm.Clause) []*bqlm.Query {
 				}
 				q.Proj = append(q.Proj, ag...)
 				out = append(out, q)
+				if aliasKeys || len(keys) > 1 {
+					continue
+				}
+				// the order of the SELECT list is free: aggregates written before the grouping column
+				if len(ag) == 1 || len(ag) == 2 && ag[0].Binding == ag[1].Binding {
+					r := &bqlm.Query{From: q.From, Where: cs, GroupBy: q.GroupBy}
+					r.Proj = append(append([]bqlm.Proj{}, ag...), q.Proj[:len(keys)]...)
+					out = append(out, r)
+				}
+				// the grouping binding itself aggregated, before and after its plain projection
+				if len(ag) == 0 || len(ag) == 1 && ag[0].Op == "sum" {
+					k := keys[0]
+					for _, ka := range []bqlm.Proj{{Binding: k, Op: "count", Alias: "?c_" + k[1:]}, {Binding: k, Op: "count", Distinct: true, Alias: "?d_" + k[1:]}} {
+						a := &bqlm.Query{From: q.From, Where: cs, GroupBy: q.GroupBy}
+						a.Proj = append(append([]bqlm.Proj{ka}, q.Proj[:1]...), ag...)
+						b := &bqlm.Query{From: q.From, Where: cs, GroupBy: q.GroupBy}
+						b.Proj = append(append(append([]bqlm.Proj{}, q.Proj[:1]...), ag...), ka)
+						out = append(out, a, b)
+					}
+				}
 			}
 		}
 	}
@@ -145,7 +165,7 @@ type kase struct {
 }
 
 type stats struct {
-	evals, nontrivial, unspecified, rejected int64
+	evals, nontrivial, unspecified, rejected, merged int64
 	outcomes                                 sync.Map
 }
 
@@ -255,7 +275,7 @@ func main() {
 		return ok, d
 	})
 	r.MaybeReplay()
-	n := r.Pick(12, 13)
+	n := r.Pick(12, 14)
 	u := universe(n)
 	pats := patterns()
 	var allQ [][]*bqlm.Query
@@ -281,6 +301,37 @@ func main() {
 		}
 	}
 	r.Set("states", len(masks))
+	// a pattern whose clauses all name their predicate id cannot see triples with other ids: graph subsets
+	// that agree on the triples it can see give the same evaluation, which is done once (for the first such subset)
+	visible := make([]int, len(pats)) // per pattern: bit mask of the universe triples some clause can match
+	for pi, p := range pats {
+		ids := map[string]bool{}
+		all := false
+		for _, c := range p {
+			switch {
+			case c.P.Kind == bqlm.Const:
+				ids[string(c.P.P.ID())] = true
+			case c.P.Kind == bqlm.AnchorBind || c.P.Kind == bqlm.Bound:
+				ids[c.P.ID] = true
+			default:
+				all = true
+			}
+		}
+		for i, t := range u {
+			if all || ids[string(t.Predicate().ID())] {
+				visible[pi] |= 1 << uint(i)
+			}
+		}
+	}
+	firstWith := make([]map[int]int, len(pats))
+	for pi := range pats {
+		firstWith[pi] = map[int]int{}
+		for mi, m := range masks {
+			if _, ok := firstWith[pi][m&visible[pi]]; !ok {
+				firstWith[pi][m&visible[pi]] = mi
+			}
+		}
+	}
 	st := &stats{}
 	common.ParallelFor(len(masks), func(mi int) {
 		if r.OutOfTime() {
@@ -288,6 +339,10 @@ func main() {
 		}
 		data := bqlm.Subset(u, masks[mi])
 		for pi := range pats {
+			if firstWith[pi][masks[mi]&visible[pi]] != mi {
+				atomic.AddInt64(&st.merged, int64(len(allQ[pi])))
+				continue
+			}
 			for qi, q := range allQ[pi] {
 				ok, class, shape, detail, outcome, nt := check(q, data)
 				atomic.AddInt64(&st.evals, 1)
@@ -312,6 +367,7 @@ func main() {
 		}
 	})
 	r.Set("evaluations", int(st.evals))
+	r.Set("evaluations_merged_same_visible_triples", int(st.merged))
 	r.Set("distinct_nontrivial", int(st.nontrivial))
 	r.Set("unspecified_sum_cases_skipped", int(st.unspecified))
 	r.Set("rejected_by_parser", int(st.rejected))
